@@ -103,14 +103,32 @@ CHECKS.update({
         technique="TLA+ machine call counter bound to real call counts + TLC-judged doubling predicate on the measured table", ref="5 (C17)"),
 })
 
+CHECKS.update({
+    "C05": dict(engine="Arith",
+        text="Arith.tla is a byte-level recursive-descent reference evaluator of the expr/term/factor grammar (left-associative, precedence, truncating division, first "
+             "division by zero in evaluation order at the operator's offset, well-formedness recogniser); TLC exports every token sequence up to 3-5 tokens rendered "
+             "with whitespace patterns with the prescribed outcome, replayed through parsley.Evaluate on the real memoised left-recursive grammar; random expressions "
+             "up to ~400 bytes with whitespace/newlines and ill-formed mutations are judged by ArithTrace (value, 'division by zero at f:line:col', rejection).",
+        note="values inside +-10^6 (TLC integers); leading-zero literals (octal/hex) outside the modelled domain; the grammar is built once and reused",
+        technique="TLA+ reference evaluator: TLC-exported cases replayed into the real grammar + TLC-judged results of random expressions", ref="5 (C05)"),
+    "C12": dict(engine=PM,
+        text="Model: ParsleyMachine explored at base 1 and base 6, paired outcomes judged by C12Trace (positions shifted, same call count), and the real code replayed "
+             "at base 6 against the machine. Code: JSON example, arithmetic grammar, trimmed token sequences, every literal parser and random left-recursive grammars, "
+             "each input parsed alone and after 1-3 arbitrary preceding files with the same parser object; C12Trace requires node and error positions shifted by "
+             "exactly the base difference and trees, values, messages, rendered line:column and call counts unchanged.",
+        note="bases up to ~120; workloads as listed in the property",
+        technique="TLC-judged shift relation on paired runs of the TLA+ machine and on paired observations of the real code; trace validation at a non-trivial base", ref="5 (C12)"),
+})
+
 NOT_YET = {}
 
 ENGINES = [
+    dict(name="Arith", path="spec/Arith.tla", serves_properties=["C05"], kind_free_text="byte-level reference evaluator; ArithMC (export), ArithTrace"),
     dict(name="TreePass", path="spec/TreePass.tla", serves_properties=["C13"], kind_free_text="Walk machine + pass definitions; TreePassMC (export), TreePassTrace"),
     dict(name="Reader", path="spec/Reader.tla", serves_properties=["C09"], kind_free_text="byte-level reader specification + cursor machine; ReaderMC, ReaderTrace"),
     dict(name="Trim", path="spec/Trim.tla", serves_properties=["C10"], kind_free_text="whitespace-mode property statement; TrimMC (machine vs property), TrimTrace"),
     dict(name="FileSet", path="spec/FileSet.tla", serves_properties=["C11"], kind_free_text="TLA+ file-set machine; FileSetMC (export), FileSetTrace"),
-    dict(name="ParsleyMachine", path="spec/ParsleyMachine.tla", serves_properties=["C01", "C02", "C03", "C04", "C06", "C07", "C17"],
+    dict(name="ParsleyMachine", path="spec/ParsleyMachine.tla", serves_properties=["C01", "C02", "C03", "C04", "C06", "C07", "C12", "C17"],
          kind_free_text="TLA+ explicit-stack machine of the parsing algorithm; Derivation.tla (denotational oracle), Grammar.tla (families), "
                         "ParsleyMC (exhaustive exploration + export), ParsleyTrace (trace validation / judge)"),
     dict(name="IntData", path="spec/IntData.tla", serves_properties=["C15"],
